@@ -9,7 +9,7 @@ import gen_graphs as gg
 
 FIELDS = {
     "C01": ["paths", "subset", "once", "complete", "no_panic", "recorders"],
-    "C02": ["verdicts", "asserts", "report", "no_panic"],
+    "C02": ["verdicts", "asserts", "report", "no_panic", "early_assert"],
     "C03": ["witness", "report", "no_panic"],
     "C11": ["ev_sound", "ev_exact", "no_panic"],
     "C13": ["bfs_order", "shortest", "no_panic"],
@@ -214,7 +214,30 @@ def c02(res):
         # waiting with join_and_report instead of join changes nothing
         c += [gg.base_cfg(s_, 2, join_and_report=True, report=True) for s_ in ("bfs", "dfs")]
         return c
-    run_family(res, "C02", FIELDS["C02"], graphs, cfgs)
+    # assert_properties asked while the check is still running (slow chains: each evaluation takes 2.5 ms, the question is
+    # put 3 ms after spawning): it must not succeed, whatever has or has not been discovered so far
+    nslow = len(graphs)
+    for k in range(6):
+        n = 40
+        last = [n]
+        props = [[dict(kind="always", name="holds", sat=list(range(1, n + 1)))],
+                 [dict(kind="always", name="deep_bad", sat=list(range(1, n)))],
+                 [dict(kind="always", name="holds", sat=list(range(1, n + 1))), dict(kind="sometimes", name="start", sat=[1])],
+                 [dict(kind="sometimes", name="start", sat=[1]), dict(kind="always", name="deep_bad", sat=list(range(1, n)))],
+                 [dict(kind="always", name="holds", sat=list(range(1, n + 1))), dict(kind="sometimes", name="deep_good", sat=last)],
+                 [dict(kind="always", name="holds", sat=list(range(1, n + 1))), dict(kind="always", name="deep_bad", sat=list(range(1, n)))]][k]
+        graphs.append(dict(id="slowchain-%d" % k, family="table", params=[], poison=0, rep=[], n=n, init=[1], succ=[[i + 2] for i in range(n - 1)] + [[0]], inb=[True] * n,
+                           props=props, slow_us=2500))
+
+    def cfgs2(i, g):
+        if i >= nslow:
+            return [gg.base_cfg(s_, t, early_assert=True) for s_ in ("bfs", "dfs") for t in (1, 2)]
+        return cfgs(i, g)
+    runs_, judged_ = run_family(res, "C02", FIELDS["C02"], graphs, cfgs2)
+    n_early = sum(1 for j in judged_ if "early_assert" in j["applied"])
+    if n_early == 0:
+        raise ToolError("assert_properties was never asked of a check that was still running (0 of 24 runs: vacuous)")
+    res.notes.append("assert_properties asked of a check that was still running: %d runs" % n_early)
     # graphs larger than a block: verdicts decided by states deep in the graph (formula properties)
     import fam_market
     wd = workdir("C02big-%s" % res.tier)
